@@ -34,6 +34,10 @@ func genTxnLog(rng *rand.Rand, base int64, n int) ([]sarama.VRec, []sarama.VSimA
 	seqs := map[int64]int32{}
 	lastWasAbort := map[int64]bool{}
 	off := func() int64 { return base + int64(len(log)) }
+	// woven logs (one in three): an abort marker of one producer id is put directly between two
+	// records of another id's open transaction, which is aborted later (overlapping aborted transactions)
+	woven := rng.Intn(3) == 0
+	forceAbort := map[int64]bool{}
 	for len(log) < n {
 		switch rng.Intn(10) {
 		case 0, 1, 2: // non-transactional record
@@ -55,6 +59,24 @@ func genTxnLog(rng *rand.Rand, base int64, n int) ([]sarama.VRec, []sarama.VSimA
 				if lastWasAbort[pid] && rng.Intn(2) == 0 {
 					commit = true // aborted, then committed by the same id
 				}
+				if forceAbort[pid] {
+					commit = false
+					delete(forceAbort, pid)
+				}
+				other := int64(-1)
+				if woven && !commit {
+					for q := range open {
+						if q != pid {
+							other = q
+							break
+						}
+					}
+				}
+				if other >= 0 {
+					log = append(log, dataRec(other, true, seqs[other], fmt.Sprintf("%d-%d", other, len(log))))
+					seqs[other]++
+					forceAbort[other] = true
+				}
 				m := markerRec(pid, commit)
 				if !commit {
 					aborted = append(aborted, sarama.VSimAborted{PID: pid, FirstOffset: first, LastOffset: off()})
@@ -62,6 +84,10 @@ func genTxnLog(rng *rand.Rand, base int64, n int) ([]sarama.VRec, []sarama.VSimA
 				lastWasAbort[pid] = !commit
 				log = append(log, m)
 				delete(open, pid)
+				if other >= 0 {
+					log = append(log, dataRec(other, true, seqs[other], fmt.Sprintf("%d-%d", other, len(log))))
+					seqs[other]++
+				}
 				break
 			}
 		}
@@ -77,6 +103,9 @@ func genTxnLog(rng *rand.Rand, base int64, n int) ([]sarama.VRec, []sarama.VSimA
 	} else {
 		for pid, first := range open {
 			commit := rng.Intn(2) == 0
+			if forceAbort[pid] {
+				commit = false
+			}
 			if !commit {
 				aborted = append(aborted, sarama.VSimAborted{PID: pid, FirstOffset: first, LastOffset: off()})
 			}
